@@ -178,6 +178,31 @@ func (ex *Exec) applyCall(st *State, fr *Frame, instr ssa.Instruction, c *ssa.Ca
 	}
 	ex.use("havoc-result:" + name)
 	st.bump(name)
+	// out-parameters: an unknown callee may write through a pointer to one of this function's own
+	// variables (errors.As(err, &target), json.Unmarshal(b, &v), ...): those cells are havoced
+	// (F1 only says that dependencies do not write goat's *shared* objects)
+	var outs []Val
+	for _, a := range allArgs {
+		outs = append(outs, a)
+		if a.Dyn != nil {
+			outs = append(outs, *a.Dyn)
+		} else if kv, ok := ex.known[a.T]; ok && kv.Dyn != nil {
+			outs = append(outs, *kv.Dyn)
+		}
+	}
+	for _, a := range outs {
+		if strings.HasPrefix(a.Arr, "cell.") && isFreshRef(a.T) {
+			so := "Int"
+			if el := derefType(a.Typ); el != nil {
+				if s2 := sortOf(el); s2 != "" {
+					so = s2
+				}
+			}
+			st.write(a.Arr, so, a.T, st.fresh("out."+shortName(name), so))
+			delete(st.cells, a.Arr+"@"+a.T)
+			ex.use("out-parameter havoced: " + name)
+		}
+	}
 	k(st, fr, ex.symVal(st, resT, "ret."+shortName(name)))
 }
 
